@@ -36,8 +36,9 @@ type recLine struct {
 var strRunes = []rune{'a', 'b', 'Z', '0', ' ', '"', '\\', '/', '\b', '\f', '\n', '\r', '\t', 0x00, 0x1f, 0x7f, 0x80, 0xe9, 0x301,
 	0x2028, 0x2029, 0xffff, 0x1F600, 0x10FFFF, '<', '>', '&', '\'', '-', '.', '*', '#', '|', '@', 'u', '{', '}', '[', ',', ':'}
 
-// member names at any depth: nothing that needs escaping in canonical JSON (left to C01)
-var keyRunes = []rune{'a', 'b', 'Z', '0', ' ', '/', 0x7f, 0x80, 0xe9, 0x301, 0x2028, 0xffff, 0x1F600, '<', '&', '\'', '-', '.', '*', '#', '|', '@', 'u', '{', ':'}
+// member names at any depth, including characters that must be escaped in canonical JSON
+var keyRunes = []rune{'a', 'b', 'Z', '0', ' ', '/', 0x7f, 0x80, 0xe9, 0x301, 0x2028, 0xffff, 0x1F600, '<', '&', '\'', '-', '.', '*', '#', '|', '@', 'u', '{', ':',
+	'"', '\\', '\n', '\t', 0x00, 0x1f, 'A'}
 var keyWords = []string{"signatures", "unsigned", "d", "content", "age", "hashes", "sha256"}
 
 var intPool = []int64{0, 1, -1, 2, 10, 100, 255, 256, 1000000000, 9007199254740991, -9007199254740991, 9007199254740990, 1000000000000, 65536, -10}
@@ -58,7 +59,17 @@ func randKey(rng *rand.Rand) string {
 	return randString(rng, keyRunes, 4)
 }
 
+// number literals beyond plain integers below 2^53: integers at and above 2^53 (neighbours collapse in float64),
+// fractions, exponent spellings.  Every numeric value has exactly one spelling here and none is the value of a
+// literal randInt can otherwise produce, so "same token" and "same number" coincide in the logged traces.
+var oddNumbers = []string{"9007199254740992", "9007199254740993", "9007199254740994", "-9007199254740992", "-9007199254740993",
+	"1234567890123456789", "1234567890123456790", "18446744073709551615", "18446744073709551616", "123456789012345678901234567890",
+	"1e-05", "1e05", "2.5E-01", "2.5E01", "1.5", "-1.5", "-0.5", "0.5", "0.1", "0.10000000000000001", "3E+2", "3E-2", "1E-7", "1E7", "1e30", "1e31"}
+
 func randInt(rng *rand.Rand) json.Number {
+	if rng.Intn(4) == 0 {
+		return json.Number(oddNumbers[rng.Intn(len(oddNumbers))])
+	}
 	if rng.Intn(2) == 0 {
 		return json.Number(strconv.FormatInt(intPool[rng.Intn(len(intPool))], 10))
 	}
@@ -254,6 +265,9 @@ func (r *recRun) act() (string, []string, *stepFailure) {
 			return "Sign", []string{e, k, p}, nil
 		case x < 35:
 			e, k, p := "E"+strconv.Itoa(1+rng.Intn(3)), "K"+strconv.Itoa(1+rng.Intn(3)), "P"+strconv.Itoa(1+rng.Intn(4))
+			if rng.Intn(4) == 0 {
+				p = "junk" // an entry that is no signature under any key: priv["junk"] is nil
+			}
 			r.d.foreignSign(r.w.ent[e], r.w.kid[k], r.w.priv[p], rng.Intn(5) == 0, rng)
 			return "ForeignSign", []string{e, k, p}, nil
 		case x < 47:
@@ -352,6 +366,11 @@ func recordRun(seed int64, run int, dump bool, emit func(*recLine), fail func(hx
 		obs := r.w.observe(r.d.bytes)
 		if obs.Panic != "" {
 			fail(hx.Result{OK: false, Key: r.d.key("verify/panic/after=" + op), What: obs.Panic + " on " + string(r.d.bytes),
+				Extra: map[string]interface{}{"run": run, "step": step}})
+			return false
+		}
+		if obs.Odd != "" {
+			fail(hx.Result{OK: false, Key: r.d.key(obs.OddClass + "/after=" + op), What: obs.Odd + " on " + string(r.d.bytes),
 				Extra: map[string]interface{}{"run": run, "step": step}})
 			return false
 		}
